@@ -342,4 +342,183 @@ theorem Ob_mergeChildren_heap (d : Nat)
 
 end heapOps
 
+/-! ## 3. `MergeOrRebalanceChildSlab` over the heap -/
+
+section mor
+variable {r : Nat} (T : Nat)
+
+theorem mrm_canLendR (d : Nat) (t : MTree r d) (n : Nat) (hn : n < 2^32)
+    (hf : mr_RootFit d t) (hs : (MTree.hdr d t).size < 2^32) :
+    (envMH T).MapSlab_CanLendToRight (cTree d t) (u32 n) = MTree.canLendToRight T d t n := by
+  have h := mrm_canLend T true d t n hn hf hs
+  simpa using h
+
+theorem mrm_canLendL (d : Nat) (t : MTree r d) (n : Nat) (hn : n < 2^32)
+    (hf : mr_RootFit d t) (hs : (MTree.hdr d t).size < 2^32) :
+    (envMH T).MapSlab_CanLendToLeft (cTree d t) (u32 n) = MTree.canLendToLeft T d t n := by
+  have h := mrm_canLend T false d t n hn hf hs
+  simpa using h
+
+/-- the heap after the `rebalanceChildren` call of a branch (unchanged when the rebalance step fails) -/
+def mrm_rebHeapOf (d : Nat) (m : MMetaSlab (MTree r d)) (x : Option DX) (l rr : MTree r d) (li ri : Nat) (b : Bool)
+    (s : MHSt r) : MHSt r :=
+  match MMetaSlab.rebalanceChildren T m l rr li ri b s.ctx with
+  | .ok (m', _) => mrm_rebHeap s d (msl_rebalanced T d l rr b).1 (msl_rebalanced T d l rr b).2 m' x
+  | .error _ => s
+
+/-- the heap after the `mergeChildren` call of a branch -/
+def mrm_mergeHeapOf (d : Nat) (m : MMetaSlab (MTree r d)) (x : Option DX) (l rr : MTree r d) (li ri : Nat)
+    (s : MHSt r) : MHSt r :=
+  mrm_mergeHeap s d (MTree.merge d l rr) (MMetaSlab.mergeChildren m l rr li ri s.ctx).1 x (MTree.hdr d rr).id
+
+/-- the heap after `MergeOrRebalanceChildSlab`, by the branch of the 3 x 3 decision table taken (mirrors
+    `MMetaSlab.mergeOrRebalanceChildSlab`) -/
+def mrm_morHeap (d : Nat) (m : MMetaSlab (MTree r d)) (x : Option DX) (child : MTree r d) (k u : Nat) (s : MHSt r) :
+    MHSt r :=
+  let leftSib : Option (MTree r d) := if k > 0 then m.children[k - 1]? else none
+  let rightSib : Option (MTree r d) := if k + 1 < m.childHdrs.length then m.children[k + 1]? else none
+  let leftCanLend := match leftSib with | some l => MTree.canLendToRight T d l u | none => false
+  let rightCanLend := match rightSib with | some x => MTree.canLendToLeft T d x u | none => false
+  if leftCanLend || rightCanLend then
+    match leftSib, rightSib with
+    | some l, some y =>
+      if !leftCanLend then mrm_rebHeapOf T d m x child y k (k + 1) true s
+      else if !rightCanLend then mrm_rebHeapOf T d m x l child (k - 1) k false s
+      else if (MTree.hdr d l).size > (MTree.hdr d y).size then mrm_rebHeapOf T d m x l child (k - 1) k false s
+      else mrm_rebHeapOf T d m x child y k (k + 1) true s
+    | some l, none => mrm_rebHeapOf T d m x l child (k - 1) k false s
+    | none, some y => mrm_rebHeapOf T d m x child y k (k + 1) true s
+    | none, none => s
+  else
+    match leftSib, rightSib with
+    | none, some y => mrm_mergeHeapOf d m x child y k (k + 1) s
+    | some l, none => mrm_mergeHeapOf d m x l child (k - 1) k s
+    | some l, some y =>
+      if (MTree.hdr d l).size < (MTree.hdr d y).size then mrm_mergeHeapOf d m x l child (k - 1) k s
+      else mrm_mergeHeapOf d m x child y k (k + 1) s
+    | none, none => s
+
+/-- closes a rebalance leaf (as WP10's macro) -/
+local macro "mrm_rebalance " thm:term ", " mdl:term ", " herr:term : tactic =>
+  `(tactic| (rw [$thm:term]; cases hres : $mdl:term with
+      | error e => rw [$herr:term e hres]
+      | ok p => rfl))
+
+/-- the `uint`-range side conditions of `Ob_MergeOrRebalanceChildSlab_heap`: what the way back from the restructuring
+    unit's records to the descent's needs (the siblings as read, every possible result slab) -/
+structure mrm_MorFit (d : Nat) (m : MMetaSlab (MTree r d)) (child : MTree r d) (k u : Nat) : Prop where
+  hu : u < 2^32
+  sib : ∀ i t, (i + 1 = k ∨ i = k + 1) → m.children[i]? = some t → mr_RootFit d t
+  rebL : ∀ t, 0 < k → m.children[k - 1]? = some t →
+    mr_RootFit d (msl_rebalanced T d t child false).1 ∧ mr_RootFit d (msl_rebalanced T d t child false).2
+  rebR : ∀ t, m.children[k + 1]? = some t →
+    mr_RootFit d (msl_rebalanced T d child t true).1 ∧ mr_RootFit d (msl_rebalanced T d child t true).2
+  mergeL : ∀ t, 0 < k → m.children[k - 1]? = some t → mr_RootFit d (MTree.merge d t child)
+  mergeR : ∀ t, m.children[k + 1]? = some t → mr_RootFit d (MTree.merge d child t)
+
+set_option linter.unusedSimpArgs false in
+/-- `MapMetaDataSlab.MergeOrRebalanceChildSlab` of the restructuring unit over the heap = the model's
+    `MMetaSlab.mergeOrRebalanceChildSlab`, the whole 3 x 3 table.  As WP10's
+    `MapMetaDataSlab_MergeOrRebalanceChildSlab_eq_model`, with: the SIBLINGS `k - 1`, `k + 1` read from the heap (`hheap`),
+    the two lend decisions discharged (`mrm_canLendR / L`), the storage after = `mrm_morHeap`. -/
+theorem mrm_MergeOrRebalanceChildSlab_gen (d : Nat)
+    (m : MMetaSlab (MTree r d)) (x : Option DX) (child : MTree r d) (k u : Nat) (s : MHSt r)
+    (hlen : m.children.length = m.childHdrs.length) (hk : k < m.childHdrs.length)
+    (hsz : Gen.mapSlabHeaderSize ≤ m.hdr.size)
+    (hheap : ∀ i t h, (i + 1 = k ∨ i = k + 1) → m.children[i]? = some t → m.childHdrs[i]? = some h →
+      s.heap h.id = some (md_tree d t none))
+    (hfit : mrm_MorFit T d m child k u)
+    (hsize : ∀ i t, (i + 1 = k ∨ i = k + 1) → m.children[i]? = some t → (MTree.hdr d t).size < 2^32)
+    (hLend : ∀ t, 0 < k → m.children[k - 1]? = some t → MTree.canLendToRight T d t u = true → msl_LendOK T d t child)
+    (hBorrow : ∀ t, m.children[k + 1]? = some t → MTree.canLendToLeft T d t u = true → msl_BorrowOK T d child t)
+    (hMergeL : ∀ t, 0 < k → m.children[k - 1]? = some t → msl_MergeOK d t child)
+    (hMergeR : ∀ t, m.children[k + 1]? = some t → msl_MergeOK d child t) :
+    MapMetaDataSlab_MergeOrRebalanceChildSlab (envMH T) (cMeta m x) s (cTree d child) (Int.ofNat k) (u32 u) =
+      match MMetaSlab.mergeOrRebalanceChildSlab T m child k u s.ctx with
+      | .error .goPanic => none
+      | .error e => some (some e, cMeta m x, s, cTree d child)
+      | .ok (m', _) =>
+        some (none, cMeta m' x, mrm_morHeap T d m x child k u s, cTree d (msl_morChild T d m child k u)) := by
+  have hcm : (cMeta m x).childrenHeaders = m.childHdrs.map cHdr := rfl
+  have isNil_nil : (MapSlab.nil : MapSlab (MElemF (MElems r)) SV DX).isNil = true := rfl
+  simp only [MapMetaDataSlab_MergeOrRebalanceChildSlab, MMetaSlab.mergeOrRebalanceChildSlab, msl_morChild, mrm_morHeap,
+    mrm_rebHeapOf, mrm_mergeHeapOf, hcm, List.length_map, msl_int_dgt0, msl_int_dlt_pred, msl_intOfNat_succ]
+  by_cases hk0 : 0 < k
+  · have hp := msl_intOfNat_pred k hk0
+    have hlc' : k - 1 < m.children.length := by omega
+    have hlh' : k - 1 < m.childHdrs.length := by omega
+    have hls : m.children[k - 1]? = some (m.children[k - 1]) := List.getElem?_eq_getElem hlc'
+    have hlh : m.childHdrs[k - 1]? = some (m.childHdrs[k - 1]) := List.getElem?_eq_getElem hlh'
+    generalize m.children[k - 1] = ls at hls
+    generalize m.childHdrs[k - 1] = lh at hlh
+    have hgl : getMapSlab (envMH T) s (cHdr lh).slabID = (cTree d ls, none, s) :=
+      mrm_getMapSlab_heap T s _ d ls (hheap (k - 1) ls lh (Or.inl (by omega)) hls hlh)
+    have hsl := hsize (k - 1) ls (Or.inl (by omega)) hls
+    have hcr' := mrm_canLendR T d ls u hfit.hu (hfit.sib (k - 1) ls (Or.inl (by omega)) hls) hsl
+    by_cases hkr : k + 1 < m.childHdrs.length
+    · -- both siblings
+      have hxc : k + 1 < m.children.length := by omega
+      have hxs : m.children[k + 1]? = some (m.children[k + 1]) := List.getElem?_eq_getElem hxc
+      have hxh : m.childHdrs[k + 1]? = some (m.childHdrs[k + 1]) := List.getElem?_eq_getElem hkr
+      generalize m.children[k + 1] = xs at hxs
+      generalize m.childHdrs[k + 1] = xh at hxh
+      have hgx : getMapSlab (envMH T) s (cHdr xh).slabID = (cTree d xs, none, s) :=
+        mrm_getMapSlab_heap T s _ d xs (hheap (k + 1) xs xh (Or.inr rfl) hxs hxh)
+      have hsx := hsize (k + 1) xs (Or.inr rfl) hxs
+      have hcl' := mrm_canLendL T d xs u hfit.hu (hfit.sib (k + 1) xs (Or.inr rfl) hxs) hsx
+      simp only [gt_iff_lt, hk0, hkr, decide_true, decide_false, if_true, if_false, Bool.false_eq_true, msl_goIdx_map_ofNat, Option.map_some, Option.isNone_none, Bool.not_true, Bool.not_false, isNil_nil, msl_cTree_isNil, Bool.true_and, Bool.false_and, hp, hlh, hls, hgl, hcr', hxh, hxs, hgx, hcl', mrm_ByteSize_cTree, u32_dgt hsl hsx,
+        u32_dlt hsl hsx]
+      cases hlc : MTree.canLendToRight T d ls u <;> cases hrc : MTree.canLendToLeft T d xs u <;>
+        simp only [Bool.or_false, Bool.or_true, Bool.false_or, Bool.true_or, Bool.not_true, Bool.not_false, if_true, if_false, Bool.false_eq_true]
+      · -- neither can lend: merge with the smaller sibling
+        by_cases hlt : (MTree.hdr d ls).size < (MTree.hdr d xs).size
+        · simp only [hlt, decide_true, if_true]
+          rw [Ob_mergeChildren_heap T d m x ls child (k - 1) k s hlh' hk hsz (hMergeL ls hk0 hls) (hfit.mergeL ls hk0 hls)]
+        · simp only [hlt, decide_false, if_false, Bool.false_eq_true]
+          rw [Ob_mergeChildren_heap T d m x child xs k (k + 1) s hk hkr hsz (hMergeR xs hxs) (hfit.mergeR xs hxs)]
+      · mrm_rebalance (Ob_rebalanceChildren_heap T d m x child xs k (k + 1) true s hk hkr
+            (hBorrow xs hxs hrc) (hfit.rebR xs hxs)), (MMetaSlab.rebalanceChildren T m child xs k (k + 1) true s.ctx),
+            (MMetaSlab.msl_rebalanceChildren_error T d m child xs k (k + 1) true s.ctx)
+      · mrm_rebalance (Ob_rebalanceChildren_heap T d m x ls child (k - 1) k false s hlh' hk
+            (hLend ls hk0 hls hlc) (hfit.rebL ls hk0 hls)), (MMetaSlab.rebalanceChildren T m ls child (k - 1) k false s.ctx),
+            (MMetaSlab.msl_rebalanceChildren_error T d m ls child (k - 1) k false s.ctx)
+      · -- both can lend: rebalance with the bigger sibling
+        by_cases hgt : (MTree.hdr d ls).size > (MTree.hdr d xs).size
+        · simp only [hgt, decide_true, if_true]
+          mrm_rebalance (Ob_rebalanceChildren_heap T d m x ls child (k - 1) k false s hlh' hk
+            (hLend ls hk0 hls hlc) (hfit.rebL ls hk0 hls)), (MMetaSlab.rebalanceChildren T m ls child (k - 1) k false s.ctx),
+            (MMetaSlab.msl_rebalanceChildren_error T d m ls child (k - 1) k false s.ctx)
+        · simp only [hgt, decide_false, if_false, Bool.false_eq_true]
+          mrm_rebalance (Ob_rebalanceChildren_heap T d m x child xs k (k + 1) true s hk hkr
+            (hBorrow xs hxs hrc) (hfit.rebR xs hxs)), (MMetaSlab.rebalanceChildren T m child xs k (k + 1) true s.ctx),
+            (MMetaSlab.msl_rebalanceChildren_error T d m child xs k (k + 1) true s.ctx)
+    · -- only the left sibling
+      simp only [gt_iff_lt, hk0, hkr, decide_true, decide_false, if_true, if_false, Bool.false_eq_true, msl_goIdx_map_ofNat, Option.map_some, Option.isNone_none, Bool.not_true, Bool.not_false, isNil_nil, msl_cTree_isNil, Bool.true_and, Bool.false_and, hp, hlh, hls, hgl, hcr']
+      cases hlc : MTree.canLendToRight T d ls u <;> simp only [Bool.or_false, Bool.or_true, Bool.false_or, Bool.true_or, Bool.not_true, Bool.not_false, if_true, if_false, Bool.false_eq_true]
+      · rw [Ob_mergeChildren_heap T d m x ls child (k - 1) k s hlh' hk hsz (hMergeL ls hk0 hls) (hfit.mergeL ls hk0 hls)]
+      · mrm_rebalance (Ob_rebalanceChildren_heap T d m x ls child (k - 1) k false s hlh' hk
+            (hLend ls hk0 hls hlc) (hfit.rebL ls hk0 hls)), (MMetaSlab.rebalanceChildren T m ls child (k - 1) k false s.ctx),
+            (MMetaSlab.msl_rebalanceChildren_error T d m ls child (k - 1) k false s.ctx)
+  · by_cases hkr : k + 1 < m.childHdrs.length
+    · -- only the right sibling
+      have hxc : k + 1 < m.children.length := by omega
+      have hxs : m.children[k + 1]? = some (m.children[k + 1]) := List.getElem?_eq_getElem hxc
+      have hxh : m.childHdrs[k + 1]? = some (m.childHdrs[k + 1]) := List.getElem?_eq_getElem hkr
+      generalize m.children[k + 1] = xs at hxs
+      generalize m.childHdrs[k + 1] = xh at hxh
+      have hgx : getMapSlab (envMH T) s (cHdr xh).slabID = (cTree d xs, none, s) :=
+        mrm_getMapSlab_heap T s _ d xs (hheap (k + 1) xs xh (Or.inr rfl) hxs hxh)
+      have hsx := hsize (k + 1) xs (Or.inr rfl) hxs
+      have hcl' := mrm_canLendL T d xs u hfit.hu (hfit.sib (k + 1) xs (Or.inr rfl) hxs) hsx
+      simp only [gt_iff_lt, hk0, hkr, decide_true, decide_false, if_true, if_false, Bool.false_eq_true, msl_goIdx_map_ofNat, Option.map_some, Option.isNone_none, Bool.not_true, Bool.not_false, isNil_nil, msl_cTree_isNil, Bool.true_and, Bool.false_and, hxh, hxs, hgx, hcl']
+      cases hrc : MTree.canLendToLeft T d xs u <;> simp only [Bool.or_false, Bool.or_true, Bool.false_or, Bool.true_or, Bool.not_true, Bool.not_false, if_true, if_false, Bool.false_eq_true]
+      · rw [Ob_mergeChildren_heap T d m x child xs k (k + 1) s hk hkr hsz (hMergeR xs hxs) (hfit.mergeR xs hxs)]
+      · mrm_rebalance (Ob_rebalanceChildren_heap T d m x child xs k (k + 1) true s hk hkr
+            (hBorrow xs hxs hrc) (hfit.rebR xs hxs)), (MMetaSlab.rebalanceChildren T m child xs k (k + 1) true s.ctx),
+            (MMetaSlab.msl_rebalanceChildren_error T d m child xs k (k + 1) true s.ctx)
+    · -- no sibling at all: `Merge` with the nil interface value panics
+      simp only [gt_iff_lt, hk0, hkr, decide_true, decide_false, if_true, if_false, Bool.false_eq_true, msl_goIdx_map_ofNat, Option.map_some, Option.isNone_none, Bool.not_true, Bool.not_false, isNil_nil, msl_cTree_isNil, Bool.true_and, Bool.false_and, Bool.or_false, MapMetaDataSlab_mergeChildren, mrm_Merge_nil]
+
+end mor
+
 end Atree.TransEq
